@@ -56,6 +56,12 @@ TECMP::CanPayload::CanPayload(const uint8_t* data, const size_t size)
 {
 }
 
+bool TECMP::CanPayload::isValid() const
+{
+    // The header and the number of data bytes it announces have to lie inside the payload
+    return Payload::isValid() && payloadData.size() >= sizeof(Header) && getHeader()->getDlc() <= payloadData.size() - sizeof(Header);
+}
+
 const uint8_t* TECMP::CanPayload::getData() const
 {
     if (payloadData.size() > sizeof(Header))
